@@ -402,7 +402,11 @@ def tname(t):
 
 def grammar_snapshot(g):
     """Everything C10 calls 'the grammar', by class name (order kept where the library keeps an order)."""
+    # read the class-level metadata BEFORE anything that might write it (get_weights is called below)
+    class_meta = {tname(k): repr(sorted((k.__dict__.get("__gengy__") or {}).items(), key=lambda kv: str(kv[0]))) for k in sorted(g.all_nodes, key=tname) if isinstance(k, type)}
     return {
+        "class_metadata(__gengy__)": class_meta,
+        "repr": repr(g),
         "alternatives": {tname(k): [tname(x) for x in v] for k, v in g.alternatives.items()},
         "distanceToTerminal": dict(sorted((tname(k), v) for k, v in g.distanceToTerminal.items())),
         "recursive_prods": sorted(tname(x) for x in g.recursive_prods),
